@@ -6,6 +6,7 @@ import (
 	"os"
 	"strings"
 
+	parser "github.com/shivasurya/code-pathfinder/sourcecode-parser/antlr"
 	"github.com/shivasurya/code-pathfinder/sourcecode-parser/cmd"
 	"github.com/shivasurya/code-pathfinder/sourcecode-parser/graph"
 )
@@ -30,6 +31,46 @@ func cmdInitDump(args []string) int {
 		fmt.Fprintln(w, l)
 	}
 	return 0
+}
+
+// parsedLine: what parser.ParseQuery recovers from the query (C11) and the expanded condition (C13/C14)
+func parsedLine(id, q string) (line string) {
+	defer func() {
+		if r := recover(); r != nil {
+			line = fmt.Sprintf("PARSED %s panic %s", id, hx(fmt.Sprint(r)))
+		}
+	}()
+	pq, err := parser.ParseQuery(q)
+	if err != nil {
+		return fmt.Sprintf("PARSED %s reject %s", id, hx(err.Error()))
+	}
+	var from, sel, preds []string
+	for _, s := range pq.SelectList {
+		from = append(from, hx(s.Entity)+":"+hx(s.Alias))
+	}
+	for _, s := range pq.SelectOutput {
+		switch s.Type {
+		case "variable":
+			sel = append(sel, "variable:"+hx(s.SelectEntity))
+		case "string":
+			sel = append(sel, "string:"+hx(s.SelectEntity))
+		default:
+			sel = append(sel, s.Type)
+		}
+	}
+	for _, p := range pq.Predicate {
+		var ps []string
+		for _, a := range p.Parameter {
+			ps = append(ps, hx(a.Type)+":"+hx(a.Name))
+		}
+		preds = append(preds, hx(p.PredicateName)+"("+strings.Join(ps, ";")+")")
+	}
+	cond, cerr := parser.ExpandedCondition(q)
+	c := hx(cond)
+	if cerr != nil {
+		c = "!"
+	}
+	return fmt.Sprintf("PARSED %s accept from=%s select=%s preds=%s cond=%s", id, strings.Join(from, ","), strings.Join(sel, ","), strings.Join(preds, ","), c)
 }
 
 func runOne(q string, g *graph.CodeGraph, mode string) (res string, err error, panicked string) {
@@ -78,6 +119,7 @@ func cmdQueries(args []string) int {
 		w := strings.SplitN(line, " ", 2)
 		qb, _ := hexDecode(w[1])
 		fmt.Fprintf(out, "BEGIN %s\n", w[0])
+		fmt.Fprintf(out, "%s\n", parsedLine(w[0], string(qb)))
 		res, err, p := runOne(string(qb), g, mode)
 		switch {
 		case p != "":
